@@ -25,6 +25,18 @@ class Ob:
         return (self.rule, self.fn.q, self.construct)
 
 
+def plin(l):
+    """linear form with declaration ids stripped"""
+    if l is None:
+        return "?"
+    parts = []
+    for t, c in sorted(l.co.items()):
+        parts.append(("" if c == 1 else "-" if c == -1 else "%d*" % c) + Zone.pretty_term(t))
+    if l.k or not parts:
+        parts.append(str(l.k))
+    return " + ".join(parts)
+
+
 def fmt_state(st, terms):
     out = []
     for (a, b), c in sorted(st.dbm.items()):
@@ -77,17 +89,19 @@ def analyse(model, fn, contracts, fields_written_by=None, assume_entry=None, cla
             return None
         buf, off = pf
         if buf not in buf_bounds:
+            if Zone.pretty_term(buf) in contract.foreign or buf[2:] in contract.foreign:
+                return ("foreign", buf)
             return ("unclassified", buf)
         B = bound_lin(st, buf_bounds[buf])
         if B is None:
             return ("unclassified", buf)
-        total = st.expand(off + idx_lin) if idx_lin is not None else None
+        total = (off + idx_lin) if idx_lin is not None else None
         onepast = buf in {name2term(x) or x for x in contract.onepast} or buf in z.literal_bounds
         if total is None:
             return (False, "index is not a linear form of tracked terms", buf, B)
         need = total - B if onepast else (total - B).shift(1)
-        ok = st.lin_le0(st.expand(need))
-        return (ok, "need %s %s %s" % (total, "<=" if onepast else "<", B), buf, B)
+        ok = st.lin_le0(need)
+        return (ok, "need %s %s %s" % (plin(total), "<=" if onepast else "<", plin(B)), buf, B)
 
     def visit(b, i, e, st):
         if e is None or "n" not in e or e.get("k"):
@@ -107,6 +121,9 @@ def analyse(model, fn, contracts, fields_written_by=None, assume_entry=None, cla
             if r is None:
                 return
             stats["subscripts"] += 1
+            if r[0] == "foreign":
+                stats["foreign"] = stats.get("foreign", 0) + 1
+                return
             if r[0] == "unclassified":
                 stats["unclassified"].append((fn.text(nid), fn.loc(nid)))
                 return
@@ -134,6 +151,14 @@ def analyse(model, fn, contracts, fields_written_by=None, assume_entry=None, cla
             if not nm:
                 return
             args = fn.call_args(nid)
+            for (ai, bname) in contract.call_requires.get(nm.split("::")[-1], []):
+                if ai < len(args):
+                    la = z.lin(st, args[ai])
+                    B = bound_lin(st, bname)
+                    ok = la is not None and B is not None and st.lin_le0(la - B)
+                    obs.append(Ob("ZB-req", fn, nid, fn.text(nid), ok,
+                                  "argument %d of %s must be <= %s" % (ai, nm.split("::")[-1], bname),
+                                  {"facts": fmt_state(st, (la.terms() if la is not None else set()) | (B.terms() if B else set()))[:12], "block": b["id"]}))
             cc = contracts.get(nm, len(args))
             if cc is None and "fq" not in n:
                 cc = contracts.by_simple(nm.split("::")[-1], len(args))
@@ -170,8 +195,11 @@ def analyse(model, fn, contracts, fields_written_by=None, assume_entry=None, cla
                 ln = z.lin(st, args[li])
                 construct = fn.text(nid)
                 if ln is None or B is None:
+                    wrap = [x for x in st.notes if x.startswith("wrap?:") and x[6:] in fn.text(args[li])]
                     obs.append(Ob("ZB-call", fn, nid, construct, False,
-                                  "length argument %s is not a linear form" % fn.text(args[li]), {"block": b["id"]}))
+                                  ("length argument %s may wrap: the unsigned subtraction is not proven safe" if wrap else
+                                   "length argument %s is not a linear form of tracked terms") % fn.text(args[li]),
+                                  {"block": b["id"], "facts": fmt_state(st, set(t for t in st.terms() if t.startswith("v:")))[:14]}))
                     continue
                 total = st.expand(off + ln).shift(kk)
                 callee_onepast = bname in cc.onepast
@@ -181,7 +209,7 @@ def analyse(model, fn, contracts, fields_written_by=None, assume_entry=None, cla
                 need = total - B if not onepast else (total - B).shift(-1)
                 ok = st.lin_le0(st.expand(need))
                 obs.append(Ob("ZB-call", fn, nid, construct, ok,
-                              "need %s + %s <= %s (callee %s reads [%s, %s+%s))" % (off, ln, B, nm.split("::")[-1], bname, bname, bound),
+                              "need %s + %s <= %s (callee %s reads [%s, %s+%s))" % (plin(off), plin(ln), plin(B), nm.split("::")[-1], bname, bname, bound),
                               {"facts": fmt_state(st, st.expand(off + ln).terms() | B.terms())[:12], "block": b["id"]}))
             # entry requirements
             for (a, bb, c) in cc.requires:
@@ -201,8 +229,26 @@ def analyse(model, fn, contracts, fields_written_by=None, assume_entry=None, cla
 
     dataflow.replay(fn, z, states, visit)
 
-    # ensures of this function (checked on every exit)
+    # class invariants over fields: proven on every exit
     exit_id = fn.cfg["exit"] if fn.cfg else None
+    if contract.invariants and exit_id is not None:
+        preds = [b for b in fn.cfg["blocks"] if exit_id in [s for s in b.get("succ", []) if s is not None]]
+        for (a, bb, c) in contract.invariants:
+            ta, tb = name2term(a), name2term(bb)
+            okall, bad = True, None
+            for b in preds:
+                if b["id"] not in states:
+                    continue
+                st = states[b["id"]].copy()
+                for e in b["el"]:
+                    z.transfer(fn, st, e, b)
+                if st.bottom:
+                    continue
+                if not st.le(ta, tb, c):
+                    okall, bad = False, b["id"]
+            obs.append(Ob("ZB-inv", fn, fn.body, "invariant %s - %s <= %d on exit" % (Zone.pretty_term(ta), Zone.pretty_term(tb), c), okall,
+                          "exit block %s lacks the fact" % bad if not okall else "assumed at entry, proven on every exit"))
+    # ensures of this function (checked on every exit)
     if contract.ensures and exit_id is not None:
         blocks = fn.blocks()
         preds = [b for b in fn.cfg["blocks"] if exit_id in [s for s in b.get("succ", []) if s is not None]]
@@ -229,6 +275,20 @@ def analyse(model, fn, contracts, fields_written_by=None, assume_entry=None, cla
                             okall = False
                             bad = b["id"]
                     obs.append(Ob("ZB-ens", fn, fn.body, "ensures %s >= %s@entry" % (pname, pname), okall,
+                                  "exit block %s lacks the fact" % bad if not okall else ""))
+                elif x[0] == "dec":
+                    okall, bad = True, None
+                    for b in preds:
+                        if b["id"] not in states:
+                            continue
+                        st = states[b["id"]].copy()
+                        for e in b["el"]:
+                            z.transfer(fn, st, e, b)
+                        if st.bottom:
+                            continue
+                        if not st.le(v, en, 0):
+                            okall, bad = False, b["id"]
+                    obs.append(Ob("ZB-ens", fn, fn.body, "ensures %s <= %s@entry" % (pname, pname), okall,
                                   "exit block %s lacks the fact" % bad if not okall else ""))
                 elif x[0] == "le":
                     # re-analyse under the entry assumption  p <= bound
